@@ -21,8 +21,9 @@ type RValue struct {
 	T     types.Type
 	Valid bool
 	Addr  bool
-	P     Ptr // when Addr
-	V     Val // when !Addr
+	P     Ptr  // when Addr
+	V     Val  // when !Addr
+	RO    bool // obtained through an unexported struct field: reading is allowed, Set* / Interface / Addr-to-set panic
 }
 
 type RType struct{ T types.Type }
@@ -154,6 +155,12 @@ func installReflectModel(m *Machine) {
 		}
 		return nil, false
 	})
+	H("reflect.TypeFor", func(st *State, call *ssa.CallCommon, args []Val) ([]Val, bool) {
+		if f := call.StaticCallee(); f != nil && len(f.TypeArgs()) == 1 {
+			return []Val{rtypeVal(f.TypeArgs()[0])}, true
+		}
+		return nil, false
+	})
 	H("(reflect.Value).Type", func(st *State, call *ssa.CallCommon, args []Val) ([]Val, bool) {
 		rv, ok := recv(st, args, "Type")
 		if !ok {
@@ -179,10 +186,13 @@ func installReflectModel(m *Machine) {
 		rv, ok := args[0].(RValue)
 		return []Val{rv.Valid && rv.Addr}, ok
 	})
-	m.Hooks["(reflect.Value).CanSet"] = m.Hooks["(reflect.Value).CanAddr"]
+	H("(reflect.Value).CanSet", func(st *State, call *ssa.CallCommon, args []Val) ([]Val, bool) {
+		rv, ok := args[0].(RValue)
+		return []Val{rv.Valid && rv.Addr && !rv.RO}, ok
+	})
 	H("(reflect.Value).CanInterface", func(st *State, call *ssa.CallCommon, args []Val) ([]Val, bool) {
 		rv, ok := args[0].(RValue)
-		return []Val{rv.Valid}, ok
+		return []Val{rv.Valid && !rv.RO}, ok
 	})
 	H("(reflect.Value).Elem", func(st *State, call *ssa.CallCommon, args []Val) ([]Val, bool) {
 		rv, ok := recv(st, args, "Elem")
@@ -208,7 +218,7 @@ func installReflectModel(m *Machine) {
 		case nilV:
 			return []Val{RValue{}}, true
 		case Ptr:
-			return []Val{RValue{T: pt.Elem(), Valid: true, Addr: true, P: x}}, true
+			return []Val{RValue{T: pt.Elem(), Valid: true, Addr: true, P: x, RO: rv.RO}}, true
 		}
 		return nil, false
 	})
@@ -240,19 +250,23 @@ func installReflectModel(m *Machine) {
 			return rpanic(st, "Field index out of range")
 		}
 		ft := s.Field(int(i)).Type()
+		ro := rv.RO || (!s.Field(int(i)).Exported() && !s.Field(int(i)).Embedded())
 		if rv.Addr {
-			return []Val{RValue{T: ft, Valid: true, Addr: true, P: Ptr{Obj: rv.P.Obj, Path: pathAppend(rv.P.Path, int(i))}}}, true
+			return []Val{RValue{T: ft, Valid: true, Addr: true, P: Ptr{Obj: rv.P.Obj, Path: pathAppend(rv.P.Path, int(i))}, RO: ro}}, true
 		}
 		sv, isSV := rv.V.(*StructV)
 		if !isSV {
 			return nil, false
 		}
-		return []Val{RValue{T: ft, Valid: true, V: cloneVal(sv.F[i])}}, true
+		return []Val{RValue{T: ft, Valid: true, V: cloneVal(sv.F[i]), RO: ro}}, true
 	})
 	H("(reflect.Value).Interface", func(st *State, call *ssa.CallCommon, args []Val) ([]Val, bool) {
 		rv, ok := recv(st, args, "Interface")
 		if !ok {
 			return nil, true
+		}
+		if rv.RO {
+			return rpanic(st, "reflect.Value.Interface: cannot return value obtained from unexported field or method")
 		}
 		v, ok := cur(st, rv)
 		if !ok {
@@ -380,6 +394,9 @@ func installReflectModel(m *Machine) {
 			}
 			if !rv.Addr {
 				return rpanic(st, "reflect.Value.%s using unaddressable value", method)
+			}
+			if rv.RO {
+				return rpanic(st, "reflect.Value.%s using value obtained using unexported field", method)
 			}
 			var nv Val
 			if method == "Set" {
